@@ -387,7 +387,7 @@ arrays after every refused call). -/
 theorem refused_net_call_changes_nothing (s : Nets) (o : Op) (h : apply? s o = none) : step s o = s := by
   simp [step, h]
 
-/-- **After any history** of `addNet` / `setNets` calls, accepted or refused, with any arguments, the net arrays are
+/-- **After any history** of `addNet` / `setNets` / `setNetWeights` calls, accepted or refused, with any arguments, the net arrays are
 well formed: `netLimits_` starts at 0 (the 13th clause of `check()`), is non-decreasing and ends at `pinCells_.size()`,
 every pin names an existing cell, and the offset / weight vectors have matching lengths. -/
 theorem nets_wf_after_any_history (n : Int) (ops : List Op) : Wf (run (NetsValue.init n) ops) :=
@@ -420,7 +420,7 @@ theorem net_getters_in_range (n : Int) (ops : List Op) (net : Nat)
 /-- Non-vacuity: a history with a refused `addNet` (pin 5 of 3 cells), two accepted ones, a refused `setNets` (limits
 not starting at 0) and an accepted one; the result has 2 nets, 3 pins. -/
 example : run (NetsValue.init 3) [.add [0, 5] 2 2, .add [0, 2] 2 2, .add [1] 1 1, .set [1, 2] [0, 1] 2 2 0,
-      .set [0, 1, 3] [2, 0, 1] 3 3 0]
+      .set [0, 1, 3] [2, 0, 1] 3 3 0, .weights 3, .weights 2]
     = ⟨3, [0, 1, 3], [2, 0, 1], 3, 3, 2⟩ := by decide
 /-- … and the invariant is not trivially true: limits that do not start at 0, or a pin naming no cell, violate it. -/
 example : ¬ Wf ⟨3, [1, 2], [0], 1, 1, 1⟩ ∧ ¬ Wf ⟨3, [0, 1], [3], 1, 1, 1⟩ := by decide
@@ -471,6 +471,14 @@ theorem nets_wf_implies_size_clauses (s : Nets) (h : Wf s) :
   simp only [absSz, BusySizes.Sz.nbNets, BusySizes.Sz.nbPins]
   simp
   omega
+
+/-- … and for `setNetWeights` (length test, assignment). -/
+theorem setNetWeights_value_model_matches_translation (s : Nets) (nwt : Nat) :
+    ∀ f ∈ ApiSizes.setters, f.name = "setNetWeights" →
+      ((BusySizes.execS BusySizes.noCallS [⟨nwt, [], 0⟩] 0 f.body ⟨false, absSz s⟩).out = .thrown
+          ↔ setNetWeights s nwt = none) ∧
+      netView (BusySizes.execS BusySizes.noCallS [⟨nwt, [], 0⟩] 0 f.body ⟨false, absSz s⟩).st.sz
+        = netView (absSz (step s (.weights nwt))) := setNetWeights_refines s nwt
 
 /-- non-vacuity: the table has an `addNet` entry -/
 example : (∃ f ∈ ApiSizes.setters, f.name = "addNet") ∧ ∃ f ∈ ApiSizes.setters, f.name = "setNets" := by decide
